@@ -37,6 +37,7 @@ type Coll struct {
 	Restoring  bool     // a Restore is running: insert markers of untracked rows are logged as runs
 	fillerKeys int      // keys handed to filler rows of a keyed collection
 	writes     int64    // number of writes issued so far (selects the writer flavor)
+	creates    int64    // number of plain columns created so far (selects CreateColumn / CreateColumnsOf)
 
 	fmu      sync.Mutex
 	fired    map[string][]Ev // trigger calls since the last apply event
@@ -95,8 +96,50 @@ func (c *Coll) Desc(name string) (ColDesc, bool) {
 	return ColDesc{}, false
 }
 
+// kindSample is a value of the Go type that Collection.CreateColumnsOf maps to the column kind of a descriptor
+// (only the plain kinds: no merge option, no enum / key / record).
+func kindSample(d ColDesc) (any, bool) {
+	if d.Merge != "" && d.Merge != "add" {
+		return nil, false
+	}
+	switch d.Repr {
+	case "int":
+		return int(0), true
+	case "int16":
+		return int16(0), true
+	case "int32":
+		return int32(0), true
+	case "int64":
+		return int64(0), true
+	case "uint":
+		return uint(0), true
+	case "uint16":
+		return uint16(0), true
+	case "uint32":
+		return uint32(0), true
+	case "uint64":
+		return uint64(0), true
+	case "float32":
+		return float32(0), true
+	case "float64":
+		return float64(0), true
+	case "bool":
+		return false, true
+	case "string":
+		if d.Merge == "" {
+			return "", true
+		}
+	}
+	return nil, false
+}
+
 func (c *Coll) CreateColumn(d ColDesc) error {
-	if err := c.C.CreateColumn(d.Name, MakeColumn(d)); err != nil {
+	// every other plain column is created through CreateColumnsOf (kind taken from a sample value)
+	if v, ok := kindSample(d); ok && atomic.AddInt64(&c.creates, 1)%2 == 0 {
+		if err := c.C.CreateColumnsOf(map[string]any{d.Name: v}); err != nil {
+			return err
+		}
+	} else if err := c.C.CreateColumn(d.Name, MakeColumn(d)); err != nil {
 		return err
 	}
 	c.Cols = append(c.Cols, d)
